@@ -153,6 +153,10 @@ def run(ctx, chk, tier):
     equivariance(ctx, chk, tier)
     # EER equivariance under reversal rests on the EER rules (zero clause, crossing function) and affine equivariance of the
     # sentinels on the float typing of the threshold array: re-decide those obligations here.
-    from . import c06, c03
+    from . import c06, c03, c07, c10
     c06.run(ctx, chk, tier)
     c03.sentinel_dtype(ctx, chk)
+    # AUC invariance rests on the AUC construction (both float neighbours of every score, own rates); relations between two runs
+    # that share a target array rest on the setters not modifying caller arrays
+    c07.structural(ctx, chk)
+    c10.purity(ctx, chk, only=("Scores.threshold_at_", "Scores.cm", "Scores.eer", "Scores.auc", "Scores.swap", "GroupScores.swap"))
